@@ -114,6 +114,13 @@ FirstWrite(c, code) ==
   /\ resp' = [resp EXCEPT ![c] = code]
   /\ UNCHANGED <<pc, ipOf, entry, reg, opened, cheld, wheld, inH, hj, cl, perIP, concurrency, open, wbusy>>
 
+\* the same when the status cannot be observed on the wire (TLS, or the write did not come about because
+\* the handshake or the connection failed): used by trace validation, the client checks what it decrypts
+FirstWriteAny(c) ==
+  /\ resp[c] = 0 /\ cl[c] = "open" /\ pc[c] \in {"rej429", "rej503"}
+  /\ resp' = [resp EXCEPT ![c] = IF pc[c] = "rej429" THEN 429 ELSE 503]
+  /\ UNCHANGED <<pc, ipOf, entry, reg, opened, cheld, wheld, inH, hj, cl, perIP, concurrency, open, wbusy>>
+
 \* first response on a connection that is served: never one of the two rejections (state unchanged;
 \* used by trace validation)
 ServedWriteOk(c, code) ==
@@ -123,7 +130,10 @@ ServedWriteOk(c, code) ==
 AfterClose(p) == CASE p = "rej503" -> "closed503" [] p = "closing" -> "closedW" [] p = "closingSC" -> "closedSC"
 
 (* Close of the accepted connection by the accepting / serving goroutine.  A connection
-   wrapped as perIPConn is unregistered right after (UnregisterMain). *)
+   wrapped as perIPConn / perIPTLSConn is unregistered right after (UnregisterMain) - also when
+   the Close of the underlying connection reports an error (a TLS peer that vanished without
+   close_notify, a failing net.Conn): the connection is gone all the same, and Read / Write errors
+   only end the serving of the connection (OpenDec) like a client close does. *)
 RawCloseMain(c) ==
   /\ cl[c] = "open" /\ pc[c] \in {"rej429", "rej503", "closing", "closingSC"}
   /\ pc[c] = "rej429" => resp[c] = 429
